@@ -1,5 +1,6 @@
 (* C13 — PCK certificate SGX extension values are extracted exactly. *)
-From V Require Import Model.PckExt Proofs.PckExt Gen.PcsConsts.
+From Coq Require Import Permutation.
+From V Require Import Model.PckExt Proofs.PckExt Proofs.PckExtPerm Gen.PcsConsts.
 
 Section C13.
 Variable decode : bytes -> option (node * nat).   (* encoding/asn1 TLV decoding (oracle) *)
@@ -36,10 +37,20 @@ Theorem C13_octets_sound : forall value size b,
   (b = value \/
    (length value <> size /\ exists n, decode value = Some (n, 0) /\ is_universal n 4 false = true /\ b = n_content n)).
 Proof. exact (octet_value_sound decode). Qed.
+
+(* Whatever the order of the elements: permuting the 18 TCB elements, or the
+   sub-extensions of the SGX extension (whose TCB element may itself be permuted
+   inside), changes neither the values returned nor whether an error is returned. *)
+Theorem C13_tcb_order : forall elem elem' f f' s s' cs cs',
+  as_seq elem = Some [f; s] -> as_seq elem' = Some [f'; s'] ->
+  as_seq s = Some cs -> as_seq s' = Some cs' -> Permutation cs cs' ->
+  extract_tcb elem = extract_tcb elem'.
+Proof. exact extract_tcb_perm. Qed.
+Theorem C13_sgx_order : forall es es', Permutation es es' -> extract_sgx decode es = extract_sgx decode es'.
+Proof. exact (extract_sgx_perm decode). Qed.
 End C13.
 Print Assumptions C13_total.
 Print Assumptions C13_tcb_sound.
 Print Assumptions C13_octets_sound.
-(* C13_order_partial: independence of the element order is established by the
-   correspondence runs (random permutations of the sub-extensions and of the 18
-   TCB elements); a permutation theorem for the fold is not yet proved. *)
+Print Assumptions C13_tcb_order.
+Print Assumptions C13_sgx_order.
